@@ -70,7 +70,7 @@ func (ev *Ev) specCall(x *ast.CallExpr) Value {
 		k := ev.expr(x.Args[1])
 		if m.Typ != nil {
 			if mt, ok := m.Typ.Underlying().(*types.Map); ok && m.S == SRef {
-				k = ev.coerce(k, mt.Key())
+				k = ev.mapKey(k, mt.Key())
 				dom, _, _, ds, _ := ev.mapFams(mt, "", SRef)
 				return boolV(app("select", app("select", u.fam(ev.st, dom, ds), m.T), k.T))
 			}
@@ -154,6 +154,60 @@ func (ev *Ev) specCall(x *ast.CallExpr) Value {
 			oldSt = ev.st
 		}
 		return boolV(and(not(app("=", v.T, "nil")), not(app("select", u.fam(oldSt, "alloc", as), v.T)), app("select", u.fam(ev.st, "alloc", as), v.T)))
+	case "has":
+		// has(s, x): x is an element of slice s (set view)
+		sv := ev.expr(x.Args[0])
+		xv := ev.expr(x.Args[1])
+		if sv.K != vSlice {
+			return ev.errorf(x.Pos(), "has() needs a slice")
+		}
+		return boolV(app("select", u.setOf(sv), xv.T))
+	case "elemset":
+		sv := ev.expr(x.Args[0])
+		if sv.K != vSlice {
+			return ev.errorf(x.Pos(), "elemset() needs a slice")
+		}
+		t := u.setOf(sv)
+		ss := arraySort(SRef, SBool)
+		if c, ok := sv.Comp["#set"]; ok {
+			ss = c.S
+		}
+		return Value{K: vScalar, T: t, S: ss}
+	case "domof", "valof":
+		// snapshots of a Go map's current key set / value function (usable as ghost locals)
+		m := ev.expr(x.Args[0])
+		if m.Typ == nil {
+			return ev.errorf(x.Pos(), "%s needs a map", name)
+		}
+		mt, ok := m.Typ.Underlying().(*types.Map)
+		if !ok {
+			return ev.errorf(x.Pos(), "%s needs a map", name)
+		}
+		ks := u.sortOf(mt.Key())
+		if ks == "" {
+			ks = SRef
+		}
+		if name == "domof" {
+			dom, _, _, ds, _ := ev.mapFams(mt, "", SRef)
+			return Value{K: vScalar, T: app("select", u.fam(ev.st, dom, ds), m.T), S: arraySort(ks, SBool)}
+		}
+		es := u.sortOf(mt.Elem())
+		if es == "" {
+			return ev.errorf(x.Pos(), "valof needs a map with scalar values")
+		}
+		_, val, _, _, vs := ev.mapFams(mt, "", es)
+		return Value{K: vScalar, T: app("select", u.fam(ev.st, val, vs), m.T), S: arraySort(ks, es)}
+	case "nokeys":
+		// nokeys(): the empty key set (for ghost maps of type map[string]bool and the like, keyed by references)
+		ss := arraySort(SRef, SBool)
+		return Value{K: vScalar, T: fmt.Sprintf("((as const %s) false)", ss), S: ss}
+	case "addr":
+		return scalar(u.objKey(ev, x.Args[0]), SRef, nil)
+	case "boxedset":
+		// boxedset(x): set view of the string slice held by interface value x
+		xv := ev.expr(x.Args[0])
+		ss := arraySort(SRef, SBool)
+		return Value{K: vScalar, T: app(u.declareFun(quote("boxset:"+string(ss)), []Sort{SRef}, ss), xv.T), S: ss}
 	case "upd":
 		// upd(a, k, v): array/ghost-map update
 		a := ev.expr(x.Args[0])
